@@ -1461,6 +1461,18 @@ func c11GenWrapperBoundaries(g *Gen) {
 			}
 		}
 	}
+	// the production limit of fluentdforward (7 MiB) with records of about 1 MiB: buffers grow beyond their initial capacity
+	for target := 0; target <= 2; target++ {
+		for i := 0; i < g.Pick(1, 4); i++ {
+			z := []int64{int64(target), 0, 7 * 1024 * 1024, 0}
+			for j := 0; j < 9; j++ {
+				z = append(z, int64(1024*1024+r.Range(-2, 2)))
+			}
+			z = append(z, int64(7*1024*1024+r.Range(-1, 1)), 5)
+			g.Count("boundary:fluentd-7MiB")
+			g.Case(1, [][]byte{[]byte("t")}, z)
+		}
+	}
 	// Datadog: body length exactly at the limit with 1..4 records
 	for _, lim := range []int{3, 4, 5, 6, 7, 8, 9, 10, 64, 255, 256, 257} {
 		for k := 1; k <= 4; k++ {
